@@ -93,3 +93,7 @@ Proof.
   vm_compute. repeat split.
 Qed.
 Print Assumptions accepted_guess_keys_have_headroom_refuted.
+
+(** [Value::to_json] is the function [Codec.to_json] models: leaves written exactly, no rounding
+    (shape regenerated from the source; the values serialising are compared by the streams) *)
+Example to_json_shape : value_to_json_shape = true.  Proof. reflexivity. Qed.
